@@ -344,13 +344,14 @@ func VerifC13ParseInt() {
 
 // ---------- unix time ----------
 
-// VerifC13UnixFloat: for Float arguments |x| < 2^E the round trip yields x when x is integral and
-// a neighbouring integer (floor or ceil) otherwise. The binary exponent is a forked choice (a
-// case split that covers the whole domain; it makes math.Modf's bit mask concrete per path).
+// VerifC13UnixFloat: for Float arguments 2^(ELO-1) <= |x| < 2^EHI (ELO = 0: from zero) the round
+// trip yields x when x is integral and a neighbouring integer (floor or ceil) otherwise. The
+// binary exponent is a forked choice (a case split that covers the whole stated domain; it makes
+// math.Modf's bit mask concrete per path).
 func VerifC13UnixFloat() {
 	setup()
 	f := zzverif.Float64("f")
-	e := zzverif.Choice("exponent", zzverif.Param("E")+1)
+	e := zzverif.Param("ELO") + zzverif.Choice("exponent", zzverif.Param("EHI")-zzverif.Param("ELO")+1)
 	field := (math.Float64bits(f) >> 52) & 0x7ff
 	if e == 0 {
 		zzverif.Assume(field < 1023) // |f| < 1 (zeros and subnormals included)
@@ -488,12 +489,17 @@ func VerifC13Index() {
 // ---------- COALESCE ----------
 
 // coalesceTypes: argument types of COALESCE: scalars (nullable or not), the NULL literal's type,
-// and (CT >= 1) lists of Int and objects {a: Int, b: String} with identical layout.
+// and (CT >= 1) Time, Duration, lists of Int and objects {a: Int, b: String} of identical layout.
 func coalesceTypes(ct int) []octosql.Type {
 	out := []octosql.Type{octosql.Null, tInt, vx.Nullable(tInt), vx.Nullable(tStr), vx.Nullable(tFlt), vx.Nullable(tBool)}
 	if ct >= 1 {
 		obj := structOf([]string{"a", "b"}, []octosql.Type{tInt, tStr})
 		out = append(out, vx.Nullable(tTime), vx.Nullable(tDur), vx.Nullable(listOf(tInt)), vx.Nullable(obj), obj)
+	}
+	if ct >= 2 {
+		// tuples: ObjectLayoutFixer.fixLayout indexes value.List for a tuple value and panics (C07);
+		// not part of the C13 configuration
+		out = append(out, vx.Nullable(tupleOf(tInt, tStr)))
 	}
 	return out
 }
